@@ -601,3 +601,158 @@ func ruleMarkup(p *Prog, r *Report) {
 		r.Undecided("MARKUP", "xmp | tag-header reader", "-", "no function that calls the tag-name scanner compares one byte with both '/' and '?' (anchor lost)")
 	}
 }
+
+// CHUNKPAT (C13): a multi-byte pattern is not looked for in one chunk of a chunked read.
+//
+// bufio.Reader.ReadSlice returns bufio.ErrBufferFull with the bytes read so far when the delimiter is not within one
+// buffer. A loop that tolerates that error (compares the error with bufio.ErrBufferFull and goes on) sees a long
+// token in chunks whose boundaries fall anywhere: a test of one chunk for a pattern of two or more bytes
+// (bytes.HasSuffix(line, "-->"), HasPrefix, Contains, Index, Equal) misses the pattern when it straddles a boundary -
+// a comment whose closing "--" ends a full buffer is not seen to end, and everything behind it is swallowed.
+//
+// Rule: in package xmp, the line returned by a ReadSlice whose ErrBufferFull is tolerated does not flow into a
+// bytes.* pattern function together with a constant needle of two or more bytes. (Carrying state across reads - a
+// counter of trailing dashes, a byte-wise scan - is what a correct scanner does instead.)
+func ruleChunkPat(p *Prog, r *Report) {
+	r.Explain("CHUNKPAT: in package xmp the bytes returned by a bufio ReadSlice whose ErrBufferFull is tolerated (the token is then seen in chunks with arbitrary boundaries) are never tested for a constant pattern of two or more bytes (bytes.HasSuffix/HasPrefix/Contains/Index/Equal): a pattern that straddles a chunk boundary would be missed.")
+	pk := p.SSAPkg("xmp")
+	if pk == nil {
+		r.Fatal("unresolved anchor: package xmp")
+		return
+	}
+	n := 0
+	for _, f := range pkgFns(pk, p) {
+		if f.Blocks == nil {
+			continue
+		}
+		// does the function compare an error with bufio.ErrBufferFull?
+		tolerates := false
+		eachInstr(f, func(_ *ssa.BasicBlock, _ int, in ssa.Instruction) {
+			bo, ok := in.(*ssa.BinOp)
+			if !ok || (bo.Op != token.EQL && bo.Op != token.NEQ) {
+				return
+			}
+			for _, v := range []ssa.Value{bo.X, bo.Y} {
+				if u, ok := v.(*ssa.UnOp); ok && u.Op == token.MUL {
+					if g, ok := u.X.(*ssa.Global); ok && g.Name() == "ErrBufferFull" {
+						tolerates = true
+					}
+				}
+			}
+		})
+		eachCall(f, func(cs ssa.CallInstruction) {
+			c := cs.Common()
+			if !isCallTo(c, "(*bufio.Reader).ReadSlice") {
+				return
+			}
+			call, ok := cs.(*ssa.Call)
+			if !ok {
+				return
+			}
+			if !tolerates {
+				return
+			}
+			n++
+			key := fmt.Sprintf("%s | chunked ReadSlice #%d: no multi-byte pattern test on one chunk", fnName(f), n)
+			at := p.posStr(instrPos(cs))
+			bad := ""
+			var follow func(v ssa.Value, d int)
+			seen := map[ssa.Value]bool{}
+			follow = func(v ssa.Value, d int) {
+				if seen[v] || d > 6 || bad != "" {
+					return
+				}
+				seen[v] = true
+				for _, rf := range refs(v) {
+					switch x := rf.(type) {
+					case *ssa.Extract:
+						if x.Index == 0 {
+							follow(x, d+1)
+						}
+					case *ssa.Phi:
+						follow(x, d+1)
+					case *ssa.Slice:
+						follow(x, d+1)
+					case *ssa.Store:
+						// spilled to a local: follow the loads
+						if al, ok := x.Addr.(*ssa.Alloc); ok && x.Val == v {
+							for _, r2 := range refs(al) {
+								if ld, ok := r2.(*ssa.UnOp); ok && ld.Op == token.MUL {
+									follow(ld, d+1)
+								}
+							}
+						}
+					case ssa.CallInstruction:
+						sc := x.Common().StaticCallee()
+						if sc == nil || sc.Pkg == nil || sc.Pkg.Pkg.Path() != "bytes" {
+							continue
+						}
+						switch sc.Name() {
+						case "HasSuffix", "HasPrefix", "Contains", "Index", "LastIndex", "Equal":
+						default:
+							continue
+						}
+						for _, a := range x.Common().Args {
+							if a == v {
+								continue
+							}
+							ln, ok := p.E3().constLen(a)
+							if !ok {
+								ln, ok = initBytesLen(a)
+							}
+							if ok && ln >= 2 {
+								bad = fmt.Sprintf("bytes.%s at %s tests one chunk for a %d-byte pattern", sc.Name(), p.posStr(instrPos(x)), ln)
+							}
+						}
+					}
+				}
+			}
+			follow(call, 0)
+			if bad != "" {
+				r.Bad("CHUNKPAT", key, at, bad+": when the pattern straddles the boundary between two chunks (the delimiter was not within one buffer) it is missed - a comment whose closing \"--\" ends a full buffer never ends, and the elements behind it are swallowed")
+			} else {
+				r.OK("CHUNKPAT", key, at, "the chunk is not tested for a multi-byte pattern")
+			}
+		})
+	}
+	r.Extra("chunkpat_sites", n)
+}
+
+// initBytesLen: v is the load of a package-level []byte (or string) variable that the package initialiser sets once
+// from a constant string (`var end = []byte("-->")`): the length of that constant.
+func initBytesLen(v ssa.Value) (int64, bool) {
+	u, ok := v.(*ssa.UnOp)
+	if !ok || u.Op != token.MUL {
+		return 0, false
+	}
+	g, ok := u.X.(*ssa.Global)
+	if !ok || g.Pkg == nil {
+		return 0, false
+	}
+	init := g.Pkg.Func("init")
+	if init == nil {
+		return 0, false
+	}
+	n, stores := int64(0), 0
+	eachInstr(init, func(_ *ssa.BasicBlock, _ int, in ssa.Instruction) {
+		st, ok := in.(*ssa.Store)
+		if !ok || st.Addr != ssa.Value(g) {
+			return
+		}
+		stores++
+		val := st.Val
+		if cv, ok := val.(*ssa.Convert); ok {
+			val = cv.X
+		}
+		if c, ok := val.(*ssa.Const); ok && c.Value != nil && c.Value.Kind() == constant.String {
+			n = int64(len(constant.StringVal(c.Value)))
+		}
+	})
+	// written anywhere else?
+	for _, rf := range refs(g) {
+		if st, ok := rf.(*ssa.Store); ok && st.Addr == ssa.Value(g) && st.Parent() != init {
+			return 0, false
+		}
+	}
+	return n, stores == 1 && n > 0
+}
